@@ -145,16 +145,23 @@ func c10Case(b *Batch, idx int) {
 	// The measured write may be an overwrite of an entry with a very different expiry, and may go through Store
 	// (context-free entry point: effective TTL is the configured one).
 	prior := "none"
+	var priorVal interface{} = "old"
+	if rng.Intn(2) == 0 {
+		priorVal = val // rewriting the value that is already stored is still a write at time t with TTL T
+	}
 	switch rng.Intn(6) {
 	case 0:
 		prior = "expired"
-		be.Write(cache.WithTTL(bg, -randDuration(rng), false), key, "old")
+		be.Write(cache.WithTTL(bg, -randDuration(rng), false), key, priorVal)
 	case 1:
 		prior = "longer"
-		be.Write(cache.WithTTL(bg, 1000*time.Hour+randDuration(rng), false), key, "old")
+		be.Write(cache.WithTTL(bg, 1000*time.Hour+randDuration(rng), false), key, priorVal)
 	case 2:
 		prior = "config"
-		be.Write(bg, key, "old")
+		be.Write(bg, key, priorVal)
+	}
+	if prior != "none" && priorVal == interface{}(val) {
+		prior += "+equal-value"
 	}
 	viaStore := be.HasLoadStore() && rng.Intn(4) == 0
 	if viaStore {
